@@ -129,8 +129,13 @@ void FileHeader::getIV(const u8_t *r_buf, u8_t *iv)
 {
     Hashmaster *hm = hf.getHasher(HashFactory::SHA1);
     hm->getStringHash(r_buf, strlen((const char *)r_buf), iv);
+    WV_ASSERT("[C02,C18] IV 0 is SHA-1 over the whole seed string",
+              wv_hl_fptr == r_buf + 64 * (wv_slen >> 6) && wv_hl_fr == (wv_slen & 63) && wv_hl_ftotal == 512ull * (wv_slen >> 6) && wv_hl_out == iv);
     for (int i = 1; i < num; ++i)
+    {
         hm->getStringHash(iv + (20 * (i - 1)), 20, iv + (20 * i));
+        WV_ASSERT("[C02,C18] IV i is SHA-1 over the 20 bytes of IV i-1", wv_hl_fptr == iv + 20 * (i - 1) && wv_hl_fr == 20 && wv_hl_ftotal == 0 && wv_hl_out == iv + 20 * i);
+    }
     delete hm;
 }
 /*
